@@ -156,6 +156,7 @@ let () =
   let out_path = if Array.length Sys.argv > 1 then Sys.argv.(1) else "/dev/stdout" in
   let max_keep = if Array.length Sys.argv > 2 then int_of_string Sys.argv.(2) else 20 in
   let golden_path = if Array.length Sys.argv > 3 then Some Sys.argv.(3) else None in
+  let prop = n_of_int (if Array.length Sys.argv > 4 then int_of_string Sys.argv.(4) else 0) in
   let golden = ref [] and n_golden = ref 0 in
   let entries : (string, M.entry option) Hashtbl.t = Hashtbl.create 64 in
   let per_entry : (string, stats) Hashtbl.t = Hashtbl.create 64 in
@@ -212,7 +213,7 @@ let () =
                        if List.length !mism_list < max_keep then
                          mism_list := (line, string_of_val mo) :: !mism_list
                      end;
-                     let code = int_of_n (e.M.e_verdict args out) in
+                     let code = int_of_n (e.M.e_verdict prop args out) in
                      if code = 0 then st.holds <- st.holds + 1
                      else if code = 2 then st.unjudged <- st.unjudged + 1
                      else if code = 1 then begin
